@@ -73,12 +73,16 @@ def HDPriv.pub (k : HDPriv) : HDPub :=
   { point := smul (k.secret : Int) G, chainCode := k.chainCode, depth := k.depth, parentFp := k.parentFp,
     childNumber := k.childNumber, network := k.network, pubVersion := k.pubVersion }
 
+/-- `version if version is not None else TABLE[network]` (KeyError for an unknown network) -/
+def versionOr (v : Option Bytes) (tbl : List (String × Bytes)) (network : String) : Option Bytes :=
+  match v with
+  | some x => some x
+  | none => dictGet tbl network
+
 /-- HDPublicKey.__init__: `pub_version=None` → `XPUB[network]` (KeyError for an unknown network) -/
 def mkPub (point : Pt) (cc : Bytes) (depth : Nat) (fp : Bytes) (cn : Nat) (network : String)
     (pubVersion : Option Bytes) : Option HDPub := do
-  let pv ← match pubVersion with
-    | some v => some v
-    | none => dictGet Gen.hdXpub network
+  let pv ← versionOr pubVersion Gen.hdXpub network
   pure { point := point, chainCode := cc, depth := depth, parentFp := fp, childNumber := cn,
          network := network, pubVersion := pv }
 
@@ -86,9 +90,7 @@ def mkPub (point : Pt) (cc : Bytes) (depth : Nat) (fp : Bytes) (cn : Nat) (netwo
     then HDPublicKey.__init__ -/
 def mkPriv (secret : Nat) (cc : Bytes) (depth : Nat) (fp : Bytes) (cn : Nat) (network : String)
     (privVersion pubVersion : Option Bytes) : Option HDPriv := do
-  let pv ← match privVersion with
-    | some v => some v
-    | none => dictGet Gen.hdXprv network
+  let pv ← versionOr privVersion Gen.hdXprv network
   let pub ← mkPub (smul (secret : Int) G) cc depth fp cn network pubVersion
   pure { secret := secret, chainCode := cc, depth := depth, parentFp := fp, childNumber := cn,
          network := network, privVersion := pv, pubVersion := pub.pubVersion }
@@ -109,37 +111,45 @@ def HDPub.fingerprint (p : HDPub) : Option Bytes :=
 /-- HDPrivateKey.fingerprint -/
 def HDPriv.fingerprint (k : HDPriv) : Option Bytes := k.pub.fingerprint h160
 
-/-- HDPrivateKey.child for `index ≥ 0` -/
-def HDPriv.child (k : HDPriv) (index : Nat) : Option HDPriv := do
-  let data ←
-    if cmpOp Gen.hdPrivHardOp index Gen.hdPrivHardT then do
-      let a ← natToBE k.secret Gen.hdPrivChildSecretW
-      let b ← natToBE index Gen.hdPrivChildIndexWHard
-      pure (a ++ b)
-    else do
-      let a ← sec (smul (k.secret : Int) G) true
-      let b ← natToBE index Gen.hdPrivChildIndexW
-      pure (a ++ b)
+/-- the HMAC input of HDPrivateKey.child: `0x00 ‖ secret(32) ‖ index(4)` when hardened, else `sec ‖ index(4)` -/
+def HDPriv.childData (k : HDPriv) (index : Nat) : Option Bytes :=
+  if cmpOp Gen.hdPrivHardOp index Gen.hdPrivHardT then
+    (natToBE k.secret Gen.hdPrivChildSecretW).bind fun a =>
+      (natToBE index Gen.hdPrivChildIndexWHard).bind fun b => some (a ++ b)
+  else
+    (sec (smul (k.secret : Int) G) true).bind fun a =>
+      (natToBE index Gen.hdPrivChildIndexW).bind fun b => some (a ++ b)
+
+/-- the rest of HDPrivateKey.child once `data` is known -/
+def HDPriv.childFromData (k : HDPriv) (index : Nat) (data : Bytes) : Option HDPriv :=
   let h := hmac k.chainCode data
-  let secret ← mkSecret ((beToNat (h.take Gen.hdPrivChildKeyHi) + k.secret) % N)
-  let fp ← k.fingerprint h160
-  pure { secret := secret, chainCode := h.drop Gen.hdPrivChildChainLo, depth := k.depth + 1, parentFp := fp,
-         childNumber := index, network := k.network, privVersion := k.privVersion, pubVersion := k.pubVersion }
+  (mkSecret ((beToNat (h.take Gen.hdPrivChildKeyHi) + k.secret) % N)).bind fun secret =>
+    (k.fingerprint h160).bind fun fp =>
+      some { secret := secret, chainCode := h.drop Gen.hdPrivChildChainLo, depth := k.depth + 1, parentFp := fp,
+             childNumber := index, network := k.network, privVersion := k.privVersion, pubVersion := k.pubVersion }
+
+/-- HDPrivateKey.child for `index ≥ 0` -/
+def HDPriv.child (k : HDPriv) (index : Nat) : Option HDPriv :=
+  (k.childData index).bind (k.childFromData hmac h160 index)
 
 /-- HDPrivateKey.child on a Python int (`index < 0` raises) -/
 def HDPriv.childI (k : HDPriv) (index : Int) : Option HDPriv :=
   if cmpOpI Gen.hdPrivNegOp index Gen.hdPrivNegT then none else k.child hmac h160 index.toNat
 
+/-- HDPublicKey.child once `data = sec ‖ index(4)` is known -/
+def HDPub.childFromData (p : HDPub) (index : Nat) (data : Bytes) : Option HDPub :=
+  let h := hmac p.chainCode data
+  (p.fingerprint h160).bind fun fp =>
+    some { point := saddInt p.point ((beToNat (h.take Gen.hdPubChildKeyHi) : Nat) : Int),
+           chainCode := h.drop Gen.hdPubChildChainLo, depth := p.depth + 1, parentFp := fp,
+           childNumber := index, network := p.network, pubVersion := p.pubVersion }
+
 /-- HDPublicKey.child for `index ≥ 0` -/
-def HDPub.child (p : HDPub) (index : Nat) : Option HDPub := do
+def HDPub.child (p : HDPub) (index : Nat) : Option HDPub :=
   if cmpOp Gen.hdPubHardOp index Gen.hdPubHardT then none
-  let a ← sec p.point true
-  let b ← natToBE index Gen.hdPubChildIndexW
-  let h := hmac p.chainCode (a ++ b)
-  let point := saddInt p.point ((beToNat (h.take Gen.hdPubChildKeyHi) : Nat) : Int)
-  let fp ← p.fingerprint h160
-  pure { point := point, chainCode := h.drop Gen.hdPubChildChainLo, depth := p.depth + 1, parentFp := fp,
-         childNumber := index, network := p.network, pubVersion := p.pubVersion }
+  else
+    (sec p.point true).bind fun a =>
+      (natToBE index Gen.hdPubChildIndexW).bind fun b => p.childFromData hmac h160 index (a ++ b)
 
 /-- HDPublicKey.child on a Python int -/
 def HDPub.childI (p : HDPub) (index : Int) : Option HDPub :=
